@@ -280,8 +280,9 @@ end
 
 structure SimSt (s : CSt) (A : Sc) : Prop where
   bnd : ∀ v, v ∈ A.bound ↔ v ∈ s.m
-  own : ∀ v, v ∈ A.owned → (v, s.outs.count v) ∈ s.owned
-  prod : ∀ v, v ∈ A.produced → v ∈ s.outs
+  own : ∀ v, v ∈ A.owned ↔ (v, s.outs.count v) ∈ s.owned
+  cur : ∀ c, c ∈ s.owned → c.2 = s.outs.count c.1
+  prod : ∀ v, v ∈ A.produced ↔ v ∈ s.outs
   ownB : ∀ v, v ∈ A.owned → v ∈ s.m
 
 /-- what a traversal keeps: keys stay keys, and the clone of a key that was bound is not replaced -/
@@ -402,6 +403,126 @@ theorem count_append_of_not_mem {v : Nat} {l outs : List Nat} (h : ¬ v ∈ outs
     (l ++ outs).count v = l.count v := by
   rw [List.count_append, List.count_eq_zero_of_not_mem h, Nat.add_zero]
 
+/-- what the first five steps of `wGraphStep` and of `cloneGO` establish (shared by the success and the error
+    simulation): inputs and initializers are keys, the pending outputs are read off the node cells -/
+theorem simG_prefix {w : Heap} {gs : Clone.GraphS} {ns : List NodeT} {inits : List VId} {s : CSt} {A : Sc}
+    (hinits : gs.inits.map (·.2) = inits) (hns : RepNs w ns gs.nodes)
+    (hrv : ∀ v, v ∈ gs.inputs ++ inits → RegVal w v) (hsim : SimSt s A) :
+    ∃ A1 A2 ol, wFold (Clone.wCloneOrGet w) gs.inputs A = .ok A1 ∧
+      wFold (Clone.wCloneOrGet w) (gs.inits.map (·.2)) A1 = .ok A2 ∧ Clone.wAllOutputs w gs.nodes = .ok ol ∧
+      SimSt { s with m := s.m ++ gs.inputs ++ inits } { A2 with pend := A2.pend ++ ol } := by
+  have hrv1 : ∀ v, v ∈ gs.inputs → RegVal w v := fun v hv => hrv v (List.mem_append_left _ hv)
+  have hrv2 : ∀ v, v ∈ gs.inits.map (·.2) → RegVal w v :=
+    fun v hv => hrv v (List.mem_append_right _ (by rw [← hinits]; exact hv))
+  obtain ⟨A1, hA1, hb1, ho1, hp1⟩ := wFold_cloneOrGet (w := w) gs.inputs A hrv1
+  obtain ⟨A2, hA2, hb2, ho2, hp2⟩ := wFold_cloneOrGet (w := w) (gs.inits.map (·.2)) A1 hrv2
+  obtain ⟨ol, hol⟩ := wAllOutputs_rep ns gs.nodes hns
+  refine ⟨A1, A2, ol, hA1, hA2, hol, ?_, ?_, ?_, ?_, ?_⟩
+  · intro v
+    show v ∈ A2.bound ↔ v ∈ s.m ++ gs.inputs ++ inits
+    rw [hb2 v, hb1 v, hsim.bnd v, hinits]
+    simp only [List.mem_append]
+  · intro v
+    show v ∈ A2.owned ↔ (v, s.outs.count v) ∈ s.owned
+    rw [ho2, ho1]; exact hsim.own v
+  · exact hsim.cur
+  · intro v
+    show v ∈ A2.produced ↔ v ∈ s.outs
+    rw [hp2, hp1]; exact hsim.prod v
+  · intro v hv
+    have : v ∈ A.owned := by
+      have : v ∈ A2.owned := hv
+      rw [ho2, ho1] at this; exact this
+    show v ∈ s.m ++ gs.inputs ++ inits
+    simp only [List.mem_append]
+    exact Or.inl (Or.inl (hsim.ownB v this))
+
+/-- the node-output step of `wNode` and of `cloneNO` -/
+theorem simN_outputs {s s1 : CSt} {A A1 A2 : Sc} {outs outsr : List Nat} (houts : outsr = outs)
+    (hsim1 : SimSt s1 A1) (hext1 : Ext s s1)
+    (hnb : ∀ o, o ∈ outs → ¬ o ∈ s1.m)
+    (hb2 : ∀ v, v ∈ A2.bound ↔ v ∈ A1.bound ∨ v ∈ outsr) (ho2 : A2.owned = A1.owned)
+    (hp2 : A2.produced = A1.produced) :
+    SimSt { s1 with m := s1.m ++ outs, outs := s1.outs ++ outs }
+      { A2 with produced := outsr.reverse ++ A2.produced } ∧
+    Ext s { s1 with m := s1.m ++ outs, outs := s1.outs ++ outs } := by
+  subst houts
+  have hcurv : ∀ c, c ∈ s1.owned → ¬ c.1 ∈ outsr := by
+    intro c hc ho
+    have hcc := hsim1.cur c hc
+    have : (c.1, s1.outs.count c.1) ∈ s1.owned := by rw [← hcc]; exact hc
+    exact hnb c.1 ho (hsim1.ownB c.1 ((hsim1.own c.1).mpr this))
+  refine ⟨⟨?_, ?_, ?_, ?_, ?_⟩, ?_, ?_⟩
+  · intro v
+    show v ∈ A2.bound ↔ v ∈ s1.m ++ outsr
+    rw [hb2 v, hsim1.bnd v, List.mem_append]
+  · intro v
+    show v ∈ A2.owned ↔ (v, (s1.outs ++ outsr).count v) ∈ s1.owned
+    rw [ho2]
+    constructor
+    · intro hv1
+      have hno : ¬ v ∈ outsr := fun ho => hnb v ho (hsim1.ownB v hv1)
+      rw [count_append_of_not_mem hno]
+      exact (hsim1.own v).mp hv1
+    · intro hv1
+      have hno : ¬ v ∈ outsr := hcurv _ hv1
+      rw [count_append_of_not_mem hno] at hv1
+      exact (hsim1.own v).mpr hv1
+  · intro c hc
+    show c.2 = (s1.outs ++ outsr).count c.1
+    rw [count_append_of_not_mem (hcurv c hc)]
+    exact hsim1.cur c hc
+  · intro v
+    show v ∈ outsr.reverse ++ A2.produced ↔ v ∈ s1.outs ++ outsr
+    rw [List.mem_append, List.mem_reverse, hp2, List.mem_append, hsim1.prod v]
+    constructor
+    · rintro (h | h)
+      · exact Or.inr h
+      · exact Or.inl h
+    · rintro (h | h)
+      · exact Or.inr h
+      · exact Or.inl h
+  · intro v hv
+    have hv1 : v ∈ A1.owned := by
+      have : v ∈ A2.owned := hv
+      rw [ho2] at this; exact this
+    show v ∈ s1.m ++ outsr
+    exact List.mem_append_left _ (hsim1.ownB v hv1)
+  · intro v hv
+    show v ∈ s1.m ++ outsr
+    exact List.mem_append_left _ (hext1.1 v hv)
+  · intro v hv
+    show (s1.outs ++ outsr).count v = s.outs.count v
+    have hno : ¬ v ∈ outsr := fun ho => hnb v ho (hext1.1 v hv)
+    rw [count_append_of_not_mem hno]
+    exact hext1.2 v hv
+
+/-- the model's ownership condition against the walker's, at the construction of a graph -/
+theorem bad_iff {s s2 : CSt} {A4 : Sc} {ins inits outs : List Nat} (hsim4 : SimSt s2 A4)
+    (hcnt : ∀ v, v ∈ ins ++ inits → s2.outs.count v = s.outs.count v) :
+    (∀ v, v ∈ ins ++ inits → ((s2.owned.contains (s.cur v) || (s.cur v).2 != 0) = true ↔
+        (v ∈ A4.owned ∨ v ∈ A4.produced))) ∧
+    (∀ v, v ∈ outs → (s2.owned.contains (s2.cur v) = true ↔ v ∈ A4.owned)) := by
+  constructor
+  · intro v hv
+    have hc := hcnt v hv
+    simp only [Bool.or_eq_true, List.contains_eq_mem, decide_eq_true_eq, bne_iff_ne, ne_eq, CSt.cur]
+    rw [hsim4.own v, hsim4.prod v, hc]
+    constructor
+    · rintro (h | h)
+      · exact Or.inl h
+      · right
+        rw [← hc] at h
+        exact List.count_pos_iff.mp (Nat.pos_of_ne_zero h)
+    · rintro (h | h)
+      · exact Or.inl h
+      · right
+        rw [← hc]
+        exact Nat.pos_iff_ne_zero.mp (List.count_pos_iff.mpr h)
+  · intro v _
+    simp only [List.contains_eq_mem, decide_eq_true_eq, CSt.cur]
+    exact (hsim4.own v).symm
+
 mutual
   theorem simG (w : Heap) : ∀ (t : GraphT) (fuel g : Nat) (s s' : CSt) (A : Sc),
       RepG w t g → RegG w t → depthG t ≤ fuel → nrG s.m t → SimSt s A → cloneGO s t = .ok s' →
@@ -430,35 +551,7 @@ mutual
             · rename_i hgood
               cases h
               subst hins houts
-              have hrv1 : ∀ v, v ∈ gs.inputs → RegVal w v := fun v hv => hrv v (List.mem_append_left _ hv)
-              have hrv2 : ∀ v, v ∈ gs.inits.map (·.2) → RegVal w v :=
-                fun v hv => hrv v (List.mem_append_right _ (by rw [← hinits]; exact hv))
-              obtain ⟨A1, hA1, hb1, ho1, hp1⟩ := wFold_cloneOrGet (w := w) gs.inputs A hrv1
-              obtain ⟨A2, hA2, hb2, ho2, hp2⟩ := wFold_cloneOrGet (w := w) (gs.inits.map (·.2)) A1 hrv2
-              obtain ⟨ol, hol⟩ := wAllOutputs_rep ns gs.nodes hns
-              have hsim1 : SimSt { s with m := s.m ++ gs.inputs ++ inits } { A2 with pend := A2.pend ++ ol } := by
-                refine ⟨?_, ?_, ?_, ?_⟩
-                · intro v
-                  show v ∈ A2.bound ↔ v ∈ s.m ++ gs.inputs ++ inits
-                  rw [hb2 v, hb1 v, hsim.bnd v, hinits]
-                  simp only [List.mem_append]
-                · intro v hv
-                  have : v ∈ A.owned := by
-                    have : v ∈ A2.owned := hv
-                    rw [ho2, ho1] at this; exact this
-                  exact hsim.own v this
-                · intro v hv
-                  have : v ∈ A.produced := by
-                    have : v ∈ A2.produced := hv
-                    rw [hp2, hp1] at this; exact this
-                  exact hsim.prod v this
-                · intro v hv
-                  have : v ∈ A.owned := by
-                    have : v ∈ A2.owned := hv
-                    rw [ho2, ho1] at this; exact this
-                  show v ∈ s.m ++ gs.inputs ++ inits
-                  simp only [List.mem_append]
-                  exact Or.inl (Or.inl (hsim.ownB v this))
+              obtain ⟨A1, A2, ol, hA1, hA2, hol, hsim1⟩ := simG_prefix hinits hns hrv hsim
               obtain ⟨A4, hA4, hsim4, hext⟩ := simNs w ns gs.nodes f { s with m := s.m ++ gs.inputs ++ inits } s2
                 { A2 with pend := A2.pend ++ ol } hns hrns (by omega) hnr hsim1 hN
               -- the clone of a listed input / initializer is the one captured at the start
@@ -470,38 +563,32 @@ mutual
                 rcases hv with hv | hv
                 · exact Or.inl (Or.inr hv)
                 · exact Or.inr hv
+              obtain ⟨hbi, hbo⟩ := bad_iff (s := s) (outs := gs.outputs) hsim4 hcnt
               have hg : ((∀ x, x ∈ gs.inputs → ¬ s.cur x ∈ s2.owned ∧ (s.cur x).2 = 0) ∧
                   (∀ x, x ∈ gs.outputs → ¬ s2.cur x ∈ s2.owned)) ∧
                   (∀ x, x ∈ inits → ¬ s.cur x ∈ s2.owned ∧ (s.cur x).2 = 0) := by
                 simpa [Bool.or_eq_false_iff, Bool.or_eq_true, not_or] using hgood
-              have hgood' : ∀ v, v ∈ gs.inputs ++ inits → ¬ s.cur v ∈ s2.owned ∧ (s.cur v).2 = 0 := by
-                intro v hv
-                rcases List.mem_append.mp hv with hv | hv
-                · exact hg.1.1 v hv
-                · exact hg.2 v hv
-              have hgoodO : ∀ v, v ∈ gs.outputs → ¬ s2.cur v ∈ s2.owned := hg.1.2
               have hin : ∀ v, v ∈ gs.inputs ++ inits → ¬ v ∈ A4.owned ∧ ¬ v ∈ A4.produced := by
                 intro v hv
-                have hg := hgood' v hv
-                constructor
-                · intro ho
-                  have := hsim4.own v ho
-                  rw [hcnt v hv] at this
-                  exact hg.1 this
-                · intro hp
-                  have hm := hsim4.prod v hp
-                  have : s2.outs.count v ≠ 0 := by
-                    intro h0
-                    exact (List.count_eq_zero.mp h0) hm
-                  rw [hcnt v hv] at this
-                  exact this hg.2
+                have hgv : ¬ s.cur v ∈ s2.owned ∧ (s.cur v).2 = 0 := by
+                  rcases List.mem_append.mp hv with hv' | hv'
+                  · exact hg.1.1 v hv'
+                  · exact hg.2 v hv'
+                have hnot : ¬ (v ∈ A4.owned ∨ v ∈ A4.produced) := by
+                  intro hbad
+                  have := (hbi v hv).mpr hbad
+                  simp only [Bool.or_eq_true, List.contains_eq_mem, decide_eq_true_eq, bne_iff_ne, ne_eq] at this
+                  rcases this with h' | h'
+                  · exact hgv.1 h'
+                  · exact h' hgv.2
+                exact ⟨fun h' => hnot (Or.inl h'), fun h' => hnot (Or.inr h')⟩
               have hmk := wMkGraph_ok (w := w) (gs := gs) (A := A4)
                 (by intro v hv; rw [hinits] at hv; exact hrv v hv)
                 (by rw [hinits]; exact hdist) hd1 hd2
                 (fun v hv => hin v (List.mem_append_left _ hv))
                 (by
                   intro v hv ho
-                  exact hgoodO v hv (hsim4.own v ho))
+                  exact hg.1.2 v hv (by simpa using (hbo v hv).mpr ho))
                 (fun v hv => hin v (List.mem_append_right _ (by rw [← hinits]; exact hv)))
                 (nodesNamed_rep ns gs.nodes hns hrns)
               have houtsB : wAll (fun v => if A4.bound.contains v then WRes.ok ()
@@ -516,21 +603,32 @@ mutual
                 simp only [Clone.wGraphStep, Clone.wGraphCell, Clone.wCell, hc, wres_ok_bind, hA1, hA2, hol, hA4,
                   houtsB]
                 exact hmk
-              · refine ⟨hsim4.bnd, ?_, hsim4.prod, ?_⟩
-                · intro v hv
-                  show (v, s2.outs.count v) ∈ s2.owned ++ gs.inputs.map s.cur ++ gs.outputs.map s2.cur ++ inits.map s.cur
-                  have hv' : v ∈ A4.owned ++ gs.inputs ++ gs.outputs ++ gs.inits.map (·.2) := hv
-                  simp only [List.mem_append] at hv' ⊢
-                  rcases hv' with ((hv' | hv') | hv') | hv'
-                  · exact Or.inl (Or.inl (Or.inl (hsim4.own v hv')))
-                  · refine Or.inl (Or.inl (Or.inr (List.mem_map.mpr ⟨v, hv', ?_⟩)))
-                    show (v, s.outs.count v) = _
-                    rw [hcnt v (List.mem_append_left _ hv')]
-                  · exact Or.inl (Or.inr (List.mem_map.mpr ⟨v, hv', rfl⟩))
-                  · rw [hinits] at hv'
-                    refine Or.inr (List.mem_map.mpr ⟨v, hv', ?_⟩)
-                    show (v, s.outs.count v) = _
-                    rw [hcnt v (List.mem_append_right _ hv')]
+              · refine ⟨hsim4.bnd, ?_, ?_, hsim4.prod, ?_⟩
+                · intro v
+                  show v ∈ A4.owned ++ gs.inputs ++ gs.outputs ++ gs.inits.map (·.2) ↔
+                    (v, s2.outs.count v) ∈ s2.owned ++ gs.inputs.map s.cur ++ gs.outputs.map s2.cur ++ inits.map s.cur
+                  rw [hinits]
+                  simp only [List.mem_append, List.mem_map, CSt.cur, Prod.mk.injEq]
+                  constructor
+                  · rintro (((hv' | hv') | hv') | hv')
+                    · exact Or.inl (Or.inl (Or.inl ((hsim4.own v).mp hv')))
+                    · exact Or.inl (Or.inl (Or.inr ⟨v, hv', rfl, (hcnt v (List.mem_append_left _ hv')).symm⟩))
+                    · exact Or.inl (Or.inr ⟨v, hv', rfl, rfl⟩)
+                    · exact Or.inr ⟨v, hv', rfl, (hcnt v (List.mem_append_right _ hv')).symm⟩
+                  · rintro (((hv' | ⟨v', hv', rfl, _⟩) | ⟨v', hv', rfl, _⟩) | ⟨v', hv', rfl, _⟩)
+                    · exact Or.inl (Or.inl (Or.inl ((hsim4.own v).mpr hv')))
+                    · exact Or.inl (Or.inl (Or.inr hv'))
+                    · exact Or.inl (Or.inr hv')
+                    · exact Or.inr hv'
+                · intro c hc'
+                  have hc2 : c ∈ s2.owned ++ gs.inputs.map s.cur ++ gs.outputs.map s2.cur ++ inits.map s.cur := hc'
+                  show c.2 = s2.outs.count c.1
+                  simp only [List.mem_append, List.mem_map, CSt.cur] at hc2
+                  rcases hc2 with ((hc2 | ⟨v, hv, rfl⟩) | ⟨v, hv, rfl⟩) | ⟨v, hv, rfl⟩
+                  · exact hsim4.cur c hc2
+                  · exact (hcnt v (List.mem_append_left _ hv)).symm
+                  · rfl
+                  · exact (hcnt v (List.mem_append_right _ hv)).symm
                 · intro v hv
                   show v ∈ s2.m
                   have hv' : v ∈ A4.owned ++ gs.inputs ++ gs.outputs ++ gs.inits.map (·.2) := hv
@@ -612,47 +710,13 @@ mutual
             exact hnb s1.m (cloneGsO_m hG) o ho ((hsim1.bnd o).mp hb)
           obtain ⟨A2, hA2, hb2, ho2, hp2⟩ := wFold_output (w := w) nsr.outputs A1
             (fun o ho => hreg.1 o (by rw [← houts]; exact ho)) (by rw [houts]; exact hnd) hnb1
-          refine ⟨{ A2 with produced := nsr.outputs.reverse ++ A2.produced }, ?_, ?_, ?_⟩
-          · unfold Clone.wNode
-            simp only [Clone.wNodeCell, Clone.wCell, hc, wres_ok_bind, wMapInputs_ok A nsr.inputs hbound,
-              wFold_attrs w _ nsr.attrs gl A hattrs, hA1, hd1, hd2, hA2, hdev, List.any_nil, Bool.and_false,
-              Bool.false_eq_true, if_false, wPassthrough_ok w A nsr.inputs hbound]
-          · refine ⟨?_, ?_, ?_, ?_⟩
-            · intro v
-              show v ∈ A2.bound ↔ v ∈ s1.m ++ outs
-              rw [hb2 v, hsim1.bnd v, houts, List.mem_append]
-            · intro v hv
-              have hv1 : v ∈ A1.owned := by
-                have : v ∈ A2.owned := hv
-                rw [ho2] at this; exact this
-              show (v, (s1.outs ++ outs).count v) ∈ s1.owned
-              have hno : ¬ v ∈ outs := fun ho =>
-                hnb s1.m (cloneGsO_m hG) v ho (hsim1.ownB v hv1)
-              rw [count_append_of_not_mem hno]
-              exact hsim1.own v hv1
-            · intro v hv
-              show v ∈ s1.outs ++ outs
-              have hv' : v ∈ nsr.outputs.reverse ++ A2.produced := hv
-              rw [List.mem_append, List.mem_reverse, hp2, houts] at hv'
-              rw [List.mem_append]
-              rcases hv' with hv' | hv'
-              · exact Or.inr hv'
-              · exact Or.inl (hsim1.prod v hv')
-            · intro v hv
-              have hv1 : v ∈ A1.owned := by
-                have : v ∈ A2.owned := hv
-                rw [ho2] at this; exact this
-              show v ∈ s1.m ++ outs
-              exact List.mem_append_left _ (hsim1.ownB v hv1)
-          · constructor
-            · intro v hv
-              show v ∈ s1.m ++ outs
-              exact List.mem_append_left _ (hext1.1 v hv)
-            · intro v hv
-              show (s1.outs ++ outs).count v = s.outs.count v
-              have hno : ¬ v ∈ outs := fun ho => hnb s1.m (cloneGsO_m hG) v ho (hext1.1 v hv)
-              rw [count_append_of_not_mem hno]
-              exact hext1.2 v hv
+          obtain ⟨hsimF, hextF⟩ := simN_outputs (s := s) (A := A) houts hsim1 hext1
+            (fun o ho => hnb s1.m (cloneGsO_m hG) o ho) hb2 ho2 hp2
+          refine ⟨{ A2 with produced := nsr.outputs.reverse ++ A2.produced }, ?_, hsimF, hextF⟩
+          unfold Clone.wNode
+          simp only [Clone.wNodeCell, Clone.wCell, hc, wres_ok_bind, wMapInputs_ok A nsr.inputs hbound,
+            wFold_attrs w _ nsr.attrs gl A hattrs, hA1, hd1, hd2, hA2, hdev, List.any_nil, Bool.and_false,
+            Bool.false_eq_true, if_false, wPassthrough_ok w A nsr.inputs hbound]
       · cases h
   theorem simGs (w : Heap) : ∀ (bs : List GraphT) (gl : List Nat) (f : Nat) (s s' : CSt) (A : Sc),
       RepGs w bs gl → RegGs w bs → depthGs bs ≤ f → nrGs s.m bs → SimSt s A → cloneGsO s bs = .ok s' →
@@ -681,6 +745,329 @@ mutual
         exact ⟨A2, by rw [wFold, hA1]; exact hA2, hsim2, hext1.trans hext2⟩
 end
 
+/-! ## the error direction: where `cloneGO` raises, the walker answers a clear error -/
+
+theorem wAll_dich {α : Type} {f : α → WRes Unit} : ∀ {l : List α},
+    (∀ a, a ∈ l → f a = .ok () ∨ ∃ why, f a = .err (.raised why)) →
+    wAll f l = .ok () ∨ ∃ why, wAll f l = .err (.raised why)
+  | [], _ => Or.inl rfl
+  | a :: l, h => by
+    rcases h a List.mem_cons_self with ha | ⟨why, ha⟩
+    · rcases wAll_dich (l := l) (fun b hb => h b (List.mem_cons_of_mem _ hb)) with hl | ⟨why, hl⟩
+      · left; rw [wAll, ha]; exact hl
+      · right; exact ⟨why, by rw [wAll, ha]; exact hl⟩
+    · right; exact ⟨why, by rw [wAll, ha]; rfl⟩
+
+theorem wAll_ok' {α : Type} {f : α → WRes Unit} : ∀ {l : List α}, wAll f l = .ok () → ∀ a, a ∈ l → f a = .ok ()
+  | [], _, a, ha => by cases ha
+  | b :: l, h, a, ha => by
+    rw [wAll] at h
+    cases hb : f b with
+    | ok u =>
+      rw [hb] at h
+      rcases List.mem_cons.mp ha with rfl | ha
+      · cases u; exact hb
+      · exact wAll_ok' (l := l) h a ha
+    | err e => rw [hb] at h; cases h
+    | irregular why => rw [hb] at h; cases h
+
+theorem wMapInputs_err (A : Sc) : ∀ (l : List (Option Nat)), (∃ v, some v ∈ l ∧ ¬ v ∈ A.bound) →
+    Clone.wMapInputs false A l = .err (.raised "outer-scope value")
+  | [], ⟨v, hv, _⟩ => by cases hv
+  | none :: l, ⟨v, hv, hb⟩ => by
+    rw [Clone.wMapInputs]
+    exact wMapInputs_err A l ⟨v, by simpa using hv, hb⟩
+  | some u :: l, ⟨v, hv, hb⟩ => by
+    rw [Clone.wMapInputs]
+    by_cases hu : A.bound.contains u = true
+    · rw [if_pos hu]
+      refine wMapInputs_err A l ⟨v, ?_, hb⟩
+      rcases List.mem_cons.mp hv with h' | h'
+      · cases h'
+        exact absurd (by simpa using hu) hb
+      · exact h'
+    · rw [if_neg hu]
+      rfl
+
+theorem exists_bind_of {x : WRes Unit} {k : Unit → WRes Sc} (hx : x = .ok ())
+    (h : ∃ why, k () = .err (.raised why)) : ∃ why, x.bind k = .err (.raised why) := by
+  subst hx; exact h
+
+theorem wMkGraph_err {w : Heap} {gs : Clone.GraphS} {A : Sc}
+    (hreg : ∀ v, v ∈ gs.inputs ++ gs.inits.map (·.2) → RegVal w v)
+    (hdist : Clone.distinct ((gs.inits.map (·.2)).filterMap (Clone.wName w)) = true)
+    (hd1 : Clone.wDict w gs.props = .ok ()) (hd2 : Clone.wDict w gs.mstore = .ok ())
+    (hbad : (∃ v, v ∈ gs.inputs ∧ (v ∈ A.owned ∨ v ∈ A.produced)) ∨ (∃ v, v ∈ gs.outputs ∧ v ∈ A.owned) ∨
+      (∃ v, v ∈ gs.inits.map (·.2) ∧ (v ∈ A.owned ∨ v ∈ A.produced))) :
+    ∃ why, Clone.wMkGraph w gs A = .err (.raised why) := by
+  have d2 : wAll (fun v => if A.owned.contains v then WRes.err (.raised "input owned by a different graph")
+      else if A.produced.contains v then WRes.err (.raised "input is produced by a node") else WRes.ok ())
+      gs.inputs = .ok () ∨ ∃ why, wAll (fun v => if A.owned.contains v then WRes.err (.raised "input owned by a different graph")
+      else if A.produced.contains v then WRes.err (.raised "input is produced by a node") else WRes.ok ())
+      gs.inputs = .err (.raised why) := by
+    apply wAll_dich
+    intro v _
+    by_cases h1 : A.owned.contains v = true
+    · right; exact ⟨"input owned by a different graph", by rw [if_pos h1]⟩
+    · by_cases h2 : A.produced.contains v = true
+      · right; exact ⟨"input is produced by a node", by rw [if_neg h1, if_pos h2]⟩
+      · left; rw [if_neg h1, if_neg h2]
+  have d3 : wAll (fun v => if A.owned.contains v then WRes.err (.raised "value owned by a different graph")
+      else WRes.ok ()) gs.outputs = .ok () ∨ ∃ why, wAll (fun v => if A.owned.contains v then
+      WRes.err (.raised "value owned by a different graph") else WRes.ok ()) gs.outputs = .err (.raised why) := by
+    apply wAll_dich
+    intro v _
+    by_cases h1 : A.owned.contains v = true
+    · right; exact ⟨"value owned by a different graph", by rw [if_pos h1]⟩
+    · left; rw [if_neg h1]
+  have d4 : wAll (fun v => if A.owned.contains v then WRes.err (.raised "value owned by a different graph")
+      else WRes.ok ()) (gs.inits.map (·.2)) = .ok () ∨ ∃ why, wAll (fun v => if A.owned.contains v then
+      WRes.err (.raised "value owned by a different graph") else WRes.ok ()) (gs.inits.map (·.2)) =
+      .err (.raised why) := by
+    apply wAll_dich
+    intro v _
+    by_cases h1 : A.owned.contains v = true
+    · right; exact ⟨"value owned by a different graph", by rw [if_pos h1]⟩
+    · left; rw [if_neg h1]
+  have d5 : wAll (fun v => if Clone.wName w v = some "" then WRes.err (.raised "initializer with an empty name")
+      else if A.produced.contains v then WRes.err (.raised "initializer produced by a node") else WRes.ok ())
+      (gs.inits.map (·.2)) = .ok () ∨ ∃ why, wAll (fun v => if Clone.wName w v = some "" then
+      WRes.err (.raised "initializer with an empty name")
+      else if A.produced.contains v then WRes.err (.raised "initializer produced by a node") else WRes.ok ())
+      (gs.inits.map (·.2)) = .err (.raised why) := by
+    apply wAll_dich
+    intro v _
+    by_cases h1 : Clone.wName w v = some ""
+    · right; exact ⟨"initializer with an empty name", by rw [if_pos h1]⟩
+    · by_cases h2 : A.produced.contains v = true
+      · right; exact ⟨"initializer produced by a node", by rw [if_neg h1, if_pos h2]⟩
+      · left; rw [if_neg h1, if_neg h2]
+  unfold Clone.wMkGraph
+  simp only [hdist, hd1, hd2, wres_ok_bind, if_true]
+  refine exists_bind_of (wAll_of ?_) ?_
+  · intro v hv
+    obtain ⟨nm, hn, _⟩ := wName_reg (hreg v (List.mem_append_right _ hv))
+    simp [hn]
+  rcases d2 with h2 | ⟨why, h2⟩
+  · rcases d3 with h3 | ⟨why, h3⟩
+    · rcases d4 with h4 | ⟨why, h4⟩
+      · rcases d5 with h5 | ⟨why, h5⟩
+        · exfalso
+          rcases hbad with ⟨v, hv, hb⟩ | ⟨v, hv, hb⟩ | ⟨v, hv, hb⟩
+          · have := wAll_ok' h2 v hv
+            rcases hb with hb | hb
+            · have hb' : A.owned.contains v = true := by simpa using hb
+              rw [if_pos hb'] at this; cases this
+            · have hb' : A.produced.contains v = true := by simpa using hb
+              by_cases h1 : A.owned.contains v = true
+              · rw [if_pos h1] at this; cases this
+              · rw [if_neg h1, if_pos hb'] at this; cases this
+          · have := wAll_ok' h3 v hv
+            have hb' : A.owned.contains v = true := by simpa using hb
+            rw [if_pos hb'] at this; cases this
+          · rcases hb with hb | hb
+            · have := wAll_ok' h4 v hv
+              have hb' : A.owned.contains v = true := by simpa using hb
+              rw [if_pos hb'] at this; cases this
+            · have := wAll_ok' h5 v hv
+              have hb' : A.produced.contains v = true := by simpa using hb
+              by_cases h1 : Clone.wName w v = some ""
+              · rw [if_pos h1] at this; cases this
+              · rw [if_neg h1, if_pos hb'] at this; cases this
+        · exact ⟨why, by simp only [h2, h3, h4, h5, wres_ok_bind]; rfl⟩
+      · exact ⟨why, by simp only [h2, h3, h4, wres_ok_bind]; rfl⟩
+    · exact ⟨why, by simp only [h2, h3, wres_ok_bind]; rfl⟩
+  · exact ⟨why, by simp only [h2]; rfl⟩
+
+theorem exists_of_not_all {p : Nat → Bool} : ∀ {l : List Nat}, ¬ (l.all p = true) → ∃ v, v ∈ l ∧ p v = false
+  | [], h => absurd rfl h
+  | a :: l, h => by
+    cases hp : p a with
+    | false => exact ⟨a, List.mem_cons_self, hp⟩
+    | true =>
+      have : ¬ (l.all p = true) := by
+        intro hl
+        apply h
+        simp [List.all_cons, hp, hl]
+      obtain ⟨v, hv, hpv⟩ := exists_of_not_all this
+      exact ⟨v, List.mem_cons_of_mem _ hv, hpv⟩
+
+theorem wres_err_bind {α β : Type} (e : Clone.Err) (f : α → WRes β) : (WRes.err e : WRes α).bind f = .err e := rfl
+
+mutual
+  theorem errG (w : Heap) : ∀ (t : GraphT) (fuel g : Nat) (s : CSt) (A : Sc) (e : Err),
+      RepG w t g → RegG w t → depthG t ≤ fuel → nrG s.m t → SimSt s A → cloneGO s t = .error e →
+      ∃ why, Clone.wGraph w false fuel g A = .err (.raised why)
+    | .mk gid ins inits outs ns, fuel, g, s, A, e, hrep, hreg, hd, hnr, hsim, h => by
+      cases fuel with
+      | zero => simp [depthG] at hd
+      | succ f =>
+        simp only [RepG] at hrep
+        obtain ⟨gs, hc, hins, hinits, houts, hd1, hd2, hns⟩ := hrep
+        simp only [RegG] at hreg
+        obtain ⟨hrv, hdist, hrns⟩ := hreg
+        simp only [depthG] at hd
+        simp only [nrG] at hnr
+        subst hins houts
+        obtain ⟨A1, A2, ol, hA1, hA2, hol, hsim1⟩ := simG_prefix hinits hns hrv hsim
+        rw [cloneGO] at h
+        simp only [] at h
+        cases hN : cloneNsO { s with m := s.m ++ gs.inputs ++ inits } ns with
+        | error e' =>
+          obtain ⟨why, hw⟩ := errNs w ns gs.nodes f { s with m := s.m ++ gs.inputs ++ inits }
+            { A2 with pend := A2.pend ++ ol } e' hns hrns (by omega) hnr hsim1 hN
+          refine ⟨why, ?_⟩
+          rw [Clone.wGraph]
+          simp only [Clone.wGraphStep, Clone.wGraphCell, Clone.wCell, hc, wres_ok_bind, hA1, hA2, hol, hw,
+            wres_err_bind]
+        | ok s2 =>
+          rw [hN] at h
+          simp only [] at h
+          obtain ⟨A4, hA4, hsim4, hext⟩ := simNs w ns gs.nodes f { s with m := s.m ++ gs.inputs ++ inits } s2
+            { A2 with pend := A2.pend ++ ol } hns hrns (by omega) hnr hsim1 hN
+          by_cases hall : gs.outputs.all (fun v => s2.m.contains v) = true
+          · rw [if_pos hall] at h
+            have houtsB : wAll (fun v => if A4.bound.contains v then WRes.ok ()
+                else WRes.err (.raised "graph output is not in the value map")) gs.outputs = .ok () := by
+              apply wAll_of
+              intro v hv
+              have : v ∈ s2.m := by simpa using List.all_eq_true.mp hall v hv
+              have : v ∈ A4.bound := (hsim4.bnd v).mpr this
+              simp [this]
+            have hcnt : ∀ v, v ∈ gs.inputs ++ inits → s2.outs.count v = s.outs.count v := by
+              intro v hv
+              apply hext.2 v
+              show v ∈ s.m ++ gs.inputs ++ inits
+              simp only [List.mem_append] at hv ⊢
+              rcases hv with hv | hv
+              · exact Or.inl (Or.inr hv)
+              · exact Or.inr hv
+            obtain ⟨hbi, hbo⟩ := bad_iff (s := s) (outs := gs.outputs) hsim4 hcnt
+            split at h
+            · rename_i hbad
+              have hbadW : (∃ v, v ∈ gs.inputs ∧ (v ∈ A4.owned ∨ v ∈ A4.produced)) ∨
+                  (∃ v, v ∈ gs.outputs ∧ v ∈ A4.owned) ∨
+                  (∃ v, v ∈ gs.inits.map (·.2) ∧ (v ∈ A4.owned ∨ v ∈ A4.produced)) := by
+                simp only [Bool.or_eq_true, List.any_eq_true, List.mem_map] at hbad
+                rcases hbad with (⟨c, ⟨v, hv, rfl⟩, hcb⟩ | ⟨c, ⟨v, hv, rfl⟩, hcb⟩) | ⟨c, ⟨v, hv, rfl⟩, hcb⟩
+                · exact Or.inl ⟨v, hv, (hbi v (List.mem_append_left _ hv)).mp (by simpa using hcb)⟩
+                · exact Or.inr (Or.inl ⟨v, hv, (hbo v hv).mp hcb⟩)
+                · exact Or.inr (Or.inr ⟨v, by rw [hinits]; exact hv,
+                    (hbi v (List.mem_append_right _ hv)).mp (by simpa using hcb)⟩)
+              obtain ⟨why, hw⟩ := wMkGraph_err (w := w) (gs := gs) (A := A4)
+                (by intro v hv; rw [hinits] at hv; exact hrv v hv)
+                (by rw [hinits]; exact hdist) hd1 hd2 hbadW
+              refine ⟨why, ?_⟩
+              rw [Clone.wGraph]
+              simp only [Clone.wGraphStep, Clone.wGraphCell, Clone.wCell, hc, wres_ok_bind, hA1, hA2, hol, hA4,
+                houtsB]
+              exact hw
+            · cases h
+          · have hex : ∃ v, v ∈ gs.outputs ∧ ¬ v ∈ A4.bound := by
+              obtain ⟨v, hv, hnm⟩ := exists_of_not_all hall
+              exact ⟨v, hv, fun hb => by
+                have := (hsim4.bnd v).mp hb
+                simp [this] at hnm⟩
+            have hd : wAll (fun v => if A4.bound.contains v then WRes.ok ()
+                else WRes.err (.raised "graph output is not in the value map")) gs.outputs = .ok () ∨
+                ∃ why, wAll (fun v => if A4.bound.contains v then WRes.ok ()
+                else WRes.err (.raised "graph output is not in the value map")) gs.outputs = .err (.raised why) := by
+              apply wAll_dich
+              intro v _
+              by_cases hb : A4.bound.contains v = true
+              · left; rw [if_pos hb]
+              · right; exact ⟨"graph output is not in the value map", by rw [if_neg hb]⟩
+            rcases hd with hd | ⟨why, hd⟩
+            · exfalso
+              obtain ⟨v, hv, hnb⟩ := hex
+              have := wAll_ok' hd v hv
+              have hb : ¬ (A4.bound.contains v = true) := by simpa using hnb
+              rw [if_neg hb] at this
+              cases this
+            · refine ⟨why, ?_⟩
+              rw [Clone.wGraph]
+              simp only [Clone.wGraphStep, Clone.wGraphCell, Clone.wCell, hc, wres_ok_bind, hA1, hA2, hol, hA4, hd,
+                wres_err_bind]
+  theorem errNs (w : Heap) : ∀ (ns : List NodeT) (is : List Nat) (f : Nat) (s : CSt) (A : Sc) (e : Err),
+      RepNs w ns is → RegNs w ns → depthNs ns ≤ f → nrNs s.m ns → SimSt s A → cloneNsO s ns = .error e →
+      ∃ why, wFold (Clone.wNode w false (Clone.wGraph w false f)) is A = .err (.raised why)
+    | [], is, f, s, A, e, _, _, _, _, _, h => by rw [cloneNsO] at h; cases h
+    | n :: ns, is, f, s, A, e, hrep, hreg, hd, hnr, hsim, h => by
+      simp only [RepNs] at hrep
+      obtain ⟨i, rest, rfl, hn, hrest⟩ := hrep
+      simp only [RegNs] at hreg
+      simp only [depthNs] at hd
+      simp only [nrNs] at hnr
+      rw [cloneNsO] at h
+      cases hN : cloneNO s n with
+      | error e' =>
+        obtain ⟨why, hw⟩ := errN w n i f s A e' hn hreg.1 (by omega) hnr.1 hsim hN
+        exact ⟨why, by rw [wFold, hw]; rfl⟩
+      | ok s1 =>
+        rw [hN] at h
+        simp only [] at h
+        obtain ⟨A1, hA1, hsim1, _⟩ := simN w n i f s s1 A hn hreg.1 (by omega) hnr.1 hsim hN
+        obtain ⟨why, hw⟩ := errNs w ns rest f s1 A1 e hrest hreg.2 (by omega) (hnr.2 s1.m (cloneNO_m hN)) hsim1 h
+        exact ⟨why, by rw [wFold, hA1]; exact hw⟩
+  theorem errN (w : Heap) : ∀ (n : NodeT) (i f : Nat) (s : CSt) (A : Sc) (e : Err),
+      RepN w n i → RegN w n → depthN n ≤ f → nrN s.m n → SimSt s A → cloneNO s n = .error e →
+      ∃ why, Clone.wNode w false (Clone.wGraph w false f) i A = .err (.raised why)
+    | .mk ins outs bs, i, f, s, A, e, hrep, hreg, hd, hnr, hsim, h => by
+      simp only [RepN] at hrep
+      obtain ⟨nsr, gl, hc, hins, houts, hattrs, hdev, hd1, hd2, hbs⟩ := hrep
+      simp only [RegN] at hreg
+      simp only [depthN] at hd
+      simp only [nrN] at hnr
+      obtain ⟨hnrG, _, _⟩ := hnr
+      rw [cloneNO] at h
+      by_cases hin : (ins.filterMap id).all (fun v => s.m.contains v) = true
+      · rw [if_pos hin] at h
+        cases hG : cloneGsO s bs with
+        | error e' =>
+          obtain ⟨why, hw⟩ := errGs w bs gl f s A e' hbs hreg.2 hd hnrG hsim hG
+          have hbound : ∀ v, some v ∈ nsr.inputs → v ∈ A.bound := by
+            intro v hv
+            rw [hins] at hv
+            have : v ∈ ins.filterMap id := by simpa [List.mem_filterMap] using hv
+            have := List.all_eq_true.mp hin v this
+            exact (hsim.bnd v).mpr (by simpa using this)
+          refine ⟨why, ?_⟩
+          unfold Clone.wNode
+          simp only [Clone.wNodeCell, Clone.wCell, hc, wres_ok_bind, wMapInputs_ok A nsr.inputs hbound,
+            wFold_attrs w _ nsr.attrs gl A hattrs, hw, wres_err_bind]
+        | ok s1 => rw [hG] at h; cases h
+      · have hex : ∃ v, some v ∈ nsr.inputs ∧ ¬ v ∈ A.bound := by
+          obtain ⟨v, hv, hnm⟩ := exists_of_not_all hin
+          refine ⟨v, ?_, fun hb => by
+            have := (hsim.bnd v).mp hb
+            simp [this] at hnm⟩
+          rw [hins]
+          simpa [List.mem_filterMap] using hv
+        refine ⟨"outer-scope value", ?_⟩
+        unfold Clone.wNode
+        simp only [Clone.wNodeCell, Clone.wCell, hc, wres_ok_bind, wMapInputs_err A nsr.inputs hex, wres_err_bind]
+  theorem errGs (w : Heap) : ∀ (bs : List GraphT) (gl : List Nat) (f : Nat) (s : CSt) (A : Sc) (e : Err),
+      RepGs w bs gl → RegGs w bs → depthGs bs ≤ f → nrGs s.m bs → SimSt s A → cloneGsO s bs = .error e →
+      ∃ why, wFold (Clone.wGraph w false f) gl A = .err (.raised why)
+    | [], gl, f, s, A, e, _, _, _, _, _, h => by rw [cloneGsO] at h; cases h
+    | b :: bs, gl, f, s, A, e, hrep, hreg, hd, hnr, hsim, h => by
+      simp only [RepGs] at hrep
+      obtain ⟨g, rest, rfl, hb, hrest⟩ := hrep
+      simp only [RegGs] at hreg
+      simp only [depthGs] at hd
+      simp only [nrGs] at hnr
+      rw [cloneGsO] at h
+      cases hG : cloneGO s b with
+      | error e' =>
+        obtain ⟨why, hw⟩ := errG w b f g s A e' hb hreg.1 (by omega) hnr.1 hsim hG
+        exact ⟨why, by rw [wFold, hw]; rfl⟩
+      | ok s1 =>
+        rw [hG] at h
+        simp only [] at h
+        obtain ⟨A1, hA1, hsim1, _⟩ := simG w b f g s s1 A hb hreg.1 (by omega) hnr.1 hsim hG
+        obtain ⟨why, hw⟩ := errGs w bs rest f s1 A1 e hrest hreg.2 (by omega) (hnr.2 s1.m (cloneGO_m hG)) hsim1 h
+        exact ⟨why, by rw [wFold, hA1]; exact hw⟩
+end
 
 mutual
   theorem nrG_of_B : ∀ (t : GraphT) (m : List VId), nrGB m t = true → nrG m t
